@@ -57,6 +57,32 @@ theorem keypair_refuses (p : Params) (b : List Nat) (h : b.length ≠ p.skBytes 
   intro sk pk hk
   exact h (keypair_to_from p b sk pk hk).2.2.2
 
+/-- the `Keypair` entry points answer as `SecretKey` / `PublicKey` do on the two halves of `Keypair::to_bytes`:
+    signing (pure and pre-hash, ML-DSA and Dilithium) uses the secret half, verification the public half, nothing else -/
+theorem keypair_entry_points (p : Params) (sk pk : List Nat) (hs : sk.length = p.skBytes) (hp : pk.length = p.pkBytes) :
+    (∀ fuel msg ctx hedged tape, kp_mldsa_sign p fuel (keypair_to_bytes sk pk) msg ctx hedged tape = mldsa_sign p fuel sk msg ctx hedged tape) ∧
+    (∀ fuel phm ctx hedged ph tape, kp_mldsa_prehash_sign p fuel (keypair_to_bytes sk pk) phm ctx hedged ph tape =
+        mldsa_prehash_sign p fuel sk phm ctx hedged ph tape) ∧
+    (∀ msg sig ctx, kp_mldsa_verify p (keypair_to_bytes sk pk) msg sig ctx = mldsa_verify p pk msg sig ctx) ∧
+    (∀ phm sig ctx ph, kp_mldsa_prehash_verify p (keypair_to_bytes sk pk) phm sig ctx ph = mldsa_prehash_verify p pk phm sig ctx ph) ∧
+    (∀ fuel msg, kp_dil_sign p fuel (keypair_to_bytes sk pk) msg = dil_sign p fuel sk msg) ∧
+    (∀ msg sig, kp_dil_verify p (keypair_to_bytes sk pk) msg sig = dil_verify p pk msg sig) := by
+  have h := keypair_from_to p sk pk hs hp
+  refine ⟨?_, ?_, ?_, ?_, ?_, ?_⟩ <;> intros <;>
+    simp only [kp_mldsa_sign, kp_mldsa_prehash_sign, kp_mldsa_verify, kp_mldsa_prehash_verify, kp_dil_sign, kp_dil_verify, h] <;> rfl
+
+/-- a key pair of any other length is refused by every `Keypair` entry point (the `expect` of `from_bytes`, or the slice) -/
+theorem keypair_entry_points_refuse (p : Params) (b : List Nat) (h : b.length ≠ p.skBytes + p.pkBytes) :
+    (∀ msg sig ctx, ∃ e, kp_mldsa_verify p b msg sig ctx = .error e) ∧ (∀ msg sig, ∃ e, kp_dil_verify p b msg sig = .error e) := by
+  obtain ⟨e, he⟩ : ∃ e, keypair_from_bytes p b = .error e := by
+    cases hk : keypair_from_bytes p b with
+    | error e => exact ⟨e, rfl⟩
+    | ok r =>
+      exfalso
+      have := keypair_to_from p b r.1 r.2 hk
+      exact h this.2.2.2
+  refine ⟨fun _ _ _ => ⟨e, ?_⟩, fun _ _ => ⟨e, ?_⟩⟩ <;> simp only [kp_mldsa_verify, kp_dil_verify, he] <;> rfl
+
 /-- standard lengths (regenerated from the source) -/
 theorem standard_lengths :
     (P_lvl2.pkBytes, P_lvl2.skBytes, P_lvl2.sigBytes) = (1312, 2528, 2420) ∧
